@@ -39,6 +39,7 @@ static std::map<FILE *, int> cookie_fd;
 static std::map<std::string, time_t> mtimes;    // simulated modification times (path as given, normalised)
 static long mut_calls = 0;                      // mutating calls since arming
 static long stop_at = -1;                       // >=0: mutating call number stop_at and all later ones fail
+static bool stop_once = false;                  // only call number stop_at fails (a transient error), later ones succeed
 static bool stopped = false;
 static long read_calls = 0;
 static uint64_t frng = 0;
@@ -53,7 +54,7 @@ static std::string norm(const char *p) {
 static time_t vnow() { return S.base_time + (time_t)(S.vus / 1000000); }
 static void touch(const std::string &p) { mtimes[p] = vnow(); if (S.fs_log) ev("mt %s %ld", pct_enc(p).c_str(), (long)mtimes[p]); }
 void files_set_mtime(const std::string &p, time_t t) { mtimes[norm(p.c_str())] = t; if (S.fs_log) ev("mt %s %ld", pct_enc(norm(p.c_str())).c_str(), (long)t); }
-void files_arm_stop(long n) { mut_calls = 0; stop_at = n; stopped = false; }
+void files_arm_stop(long n, bool once) { mut_calls = 0; stop_at = n; stopped = false; stop_once = once; }
 long files_mut_calls() { return mut_calls; }
 // several driver lives over one scratch directory (plan step "restart"): the simulated mtimes survive in a file
 void files_save_state(const std::string &path) {
@@ -77,12 +78,12 @@ void files_load_state(const std::string &path) {
     i = j + 1;
   }
 }
-void files_reset() { rt_short_read = -1; rt_eio_in = -1; fdpath.clear(); cookie_fd.clear(); mtimes.clear(); mut_calls = 0; stop_at = -1; stopped = false; read_calls = 0; }
+void files_reset() { rt_short_read = -1; rt_eio_in = -1; fdpath.clear(); cookie_fd.clear(); mtimes.clear(); mut_calls = 0; stop_at = -1; stopped = false; stop_once = false; read_calls = 0; }
 
 // returns true if this mutating call must fail (the disk has stopped)
 static bool mutating(const char *op, const char *path) {
   long n = mut_calls++;
-  if (stop_at >= 0 && n >= stop_at) {
+  if (stop_at >= 0 && (stop_once ? n == stop_at : n >= stop_at)) {
     if (!stopped) { stopped = true; ev("fs_stop at=%ld op=%s path=%s", n, op, path ? path : "-"); S.stats["fs_stops"]++; }
     errno = EIO;
     return true;
